@@ -51,7 +51,8 @@ Fixpoint timer_ticks (n : nat) (t : timer) (b : bus) : bus * list Z :=
   | S k => let '(b1, r1) := timer_tick t b in let '(b2, r2) := timer_ticks k t b1 in (b2, r1 ++ r2)
   end.
 
-(* update_timer8_0(bus, state, interrupt_controller) *)
+(* update_timer8_0(bus, state, interrupt_controller): the timer record lives in the module manager, the counter
+   registers in the bus; the counts only read the configuration part of the record *)
 Definition update_timer (state : Z) (s : cpu) : cpu :=
   let b := cbus s in let t := b_tmr b in
   if t_presc t =? 0 then s
@@ -59,5 +60,5 @@ Definition update_timer (state : Z) (s : cpu) : cpu :=
     let st := t_state t + state in
     let count := st / t_presc t in
     let t' := mkTimer (st - t_presc t * count) (t_presc t) (t_cmib t) (t_cmia t) (t_ovi t) (t_clear t) in
-    let '(b1, rq) := timer_ticks (Z.to_nat count) t' (bset_tmr t' b) in
-    set_irq (irq s ++ rq) (set_bus b1 s).
+    let '(b1, rq) := timer_ticks (Z.to_nat count) t b in
+    set_irq (irq s ++ rq) (set_bus (bset_tmr t' b1) s).
